@@ -171,7 +171,17 @@ public:
 
         // Normalize
         const RealScalar vnorm = m_op.norm(v);
-        v /= vnorm;
+        if (vnorm < m_near_0)
+        {
+            // v0 is in the null space of A, i.e., an eigenvector of the eigenvalue zero,
+            // so A * v0 cannot be normalized. Start from v0 itself: H[1,1] and f will be zero,
+            // and the factorization continues with a new direction orthogonal to v0
+            v.noalias() = v0 / v0norm;
+        }
+        else
+        {
+            v /= vnorm;
+        }
 
         // Compute H and f
         Vector w(m_n);
